@@ -47,6 +47,10 @@ type verifTask struct {
 	lanes      []int
 	waits      []string
 	halts      []string
+	undoRetries    int // its undo handler asks to be retried this many times first
+	undoRetryAfter time.Duration
+	undoNotBefore  time.Time // earliest legal restart of the undo after a delayed retry
+	returnedErrs   []string  // plain errors its handlers returned in the running process
 	spawn      int  // tasks its do handler adds to the change when it succeeds (as snapstate.InjectTasks)
 	dynamic    bool // was added by a handler at run time
 
@@ -184,6 +188,8 @@ type verifWorldA struct {
 	// actionStart is the number of checkpoints when the last action began
 	floor       int
 	actionStart int
+	durableChecked int
+	touch          int
 }
 
 func (w *verifWorldA) handler(undo bool, gen int) state.HandlerFunc {
@@ -319,6 +325,10 @@ func verifRunA(c *verifsim.Ctx) {
 				vt.retryAfter = []time.Duration{0, time.Second, 3 * time.Minute, 2 * time.Hour}[c.Draw("retryafter", 4)]
 			} else if cfg.wait && c.Chance("wait", 1, 6) {
 				vt.script = verifScriptWait
+			}
+			if cfg.retry && kind == "u" && c.Chance("undo-retry", 1, 6) {
+				vt.undoRetries = 1 + c.Draw("n-undo-retry", 2)
+				vt.undoRetryAfter = []time.Duration{0, time.Second, 3 * time.Minute, 2 * time.Hour}[c.Draw("undo-retryafter", 4)]
 			}
 			if cfg.spawn && vt.script == verifScriptOK && c.Chance("spawns", 1, 5) {
 				vt.spawn = 1 + c.Draw("nspawn", 2)
@@ -541,6 +551,19 @@ func (w *verifWorldA) afterAction() {
 		}
 		w.c.Add("fault:checkpoint-failure", int64(k))
 		w.c.Nontrivial()
+		if !w.st.VerifLockHeld() && w.c.Active("C04") {
+			// nobody holds the state lock although a write just failed (on the
+			// unchanged tree only when the simulator's own unlock hit the failure
+			// and already sat the retries out): another user of the state may
+			// modify it right now
+			if w.c.Draw("touch-state-after-checkpoint-trouble", 2) == 1 {
+				w.touch++
+				w.st.Lock()
+				w.st.Set("verif-touch", w.touch)
+				w.st.Unlock()
+				w.c.Count("probe:state-modified-right-after-checkpoint-trouble")
+			}
+		}
 		// State.Unlock sleeps 3s between attempts while holding the lock
 		time.Sleep(time.Duration(k)*3*time.Second + time.Millisecond)
 		synctest.Wait()
@@ -746,6 +769,13 @@ func (w *verifWorldA) release(p *verifParked) {
 			res = errors.New("undo-boom-" + vt.label)
 			c.Count("fault:undo-error")
 			c.Nontrivial()
+		} else if vt.undoRetries > 0 {
+			vt.undoRetries--
+			res = &state.Retry{After: vt.undoRetryAfter, Reason: "verif"}
+			if vt.undoRetryAfter > 0 {
+				vt.undoNotBefore = time.Now().Add(vt.undoRetryAfter)
+			}
+			c.Count("probe:undo-retry")
 		} else if vt.undoWait && !vt.undoWaited && !killed {
 			vt.undoWaited = true
 			vt.undoApplied++
@@ -801,6 +831,11 @@ func (w *verifWorldA) release(p *verifParked) {
 	rs := "ok"
 	if res != nil {
 		rs = res.Error()
+		switch res.(type) {
+		case *state.Retry, *state.Wait:
+		default:
+			vt.returnedErrs = append(vt.returnedErrs, rs)
+		}
 	}
 	c.Logf("%s %s killed=%v -> %s", what, vt.label, killed, rs)
 	p.ch <- res
@@ -926,6 +961,39 @@ func (w *verifWorldA) observe() {
 		}
 	}
 
+	// with no write in flight and nothing left to write, what a restart would
+	// read is what is in memory (every modifying unlock checkpoints, in order)
+	if c.Active("C04") && len(w.parkedWrites) == 0 && !w.st.Modified() && len(w.payloads) > 0 && len(w.payloads) != w.durableChecked {
+		w.durableChecked = len(w.payloads)
+		var raw struct {
+			Data struct {
+				Touch int `json:"verif-touch"`
+			} `json:"data"`
+			Tasks map[string]struct {
+				Status int `json:"status"`
+			} `json:"tasks"`
+		}
+		if err := json.Unmarshal(w.payloads[len(w.payloads)-1], &raw); err == nil {
+			var touch int
+			w.st.Get("verif-touch", &touch)
+			if raw.Data.Touch != touch {
+				c.Violate("C04/durable-state-behind-memory", "nothing is left to write, yet the last checkpoint written holds client write #%d while memory holds #%d: a restart now would resume from an older state", raw.Data.Touch, touch)
+			}
+			for _, t := range w.st.Tasks() {
+				rt, ok := raw.Tasks[t.ID()]
+				ps := state.Status(rt.Status)
+				if ps == state.DefaultStatus {
+					ps = state.DoStatus
+				}
+				if vt := w.tasks[t.ID()]; vt != nil && (!ok || ps != t.Status()) {
+					c.Violate("C04/durable-state-behind-memory", "nothing is left to write, yet the last checkpoint written records %s as %v (present=%v) while it is %v in memory: a restart now would resume from an older state", vt.label, ps, ok, t.Status())
+					break
+				}
+			}
+			c.Count("probe:durable-equals-memory-checked")
+		}
+	}
+
 	// newly started handlers, canonical order
 	w.mu.Lock()
 	var fresh []*verifParked
@@ -958,6 +1026,12 @@ func (w *verifWorldA) observe() {
 						c.Violate("C02/undo-while-dependent-pending", "undo of %s started while %s, which waits on it, is %v", vt.label, w.tasks[h].label, ht.Status())
 					}
 				}
+			}
+			if !vt.undoNotBefore.IsZero() && now.Before(vt.undoNotBefore) && c.Active("C02") {
+				c.Violate("C02/start-before-scheduled-time", "undo of %s started again %v before the time its retry was scheduled for", vt.label, vt.undoNotBefore.Sub(now))
+			}
+			if !vt.undoNotBefore.IsZero() {
+				c.Count("probe:delayed-undo-retry-started")
 			}
 			if vt.noReundo && c.Active("C04") {
 				c.Violate("C04/reundo-finished", "undo of %s started again although the state resumed from recorded it as Undone", vt.label)
@@ -1285,6 +1359,7 @@ func (w *verifWorldA) crash() {
 		vc.failedSeen = false
 		for _, vt := range vc.tasks {
 			vt.noRedo, vt.noReundo, vt.mustRun = false, false, false
+			vt.returnedErrs = nil
 			t := st.Task(vt.id)
 			if t == nil {
 				continue
@@ -1508,6 +1583,19 @@ func (w *verifWorldA) finalOracles() {
 				wantKilled := "killed-" + vt.label
 				if !strings.Contains(msg, "- "+vt.label+" ("+wantDo+")") && !strings.Contains(msg, "- "+vt.label+" ("+wantUndo+")") && !strings.Contains(msg, "- "+vt.label+" ("+wantKilled+")") {
 					c.Violate("C03/err-incomplete", "change %d: Err() %q does not name failed task %s with the error it failed with", vc.idx, msg, vt.label)
+				}
+			}
+			// a task whose handler returned an error is a failed task (no restart
+			// happens in the runs that decide C03, so nothing turns it into a retry)
+			if w.crashes == 0 {
+				for _, vt := range vc.tasks {
+					for _, e := range vt.returnedErrs {
+						if final[vt.id] != state.ErrorStatus {
+							c.Violate("C03/failed-task-not-in-error", "change %d: a handler of %s returned the error %q but the task ends %v", vc.idx, vt.label, e, final[vt.id])
+						} else if err == nil || !strings.Contains(err.Error(), "- "+vt.label+" ("+e+")") {
+							c.Violate("C03/err-incomplete", "change %d: Err() %v does not name failed task %s with the error %q its handler returned", vc.idx, err, vt.label, e)
+						}
+					}
 				}
 			}
 			if !anyErr && err != nil && chg.Status() != state.ErrorStatus {
